@@ -279,6 +279,7 @@ func runC06(c *core.Ctx) {
 	checkCacheBranch(c)
 	checkProcessReport(c)
 	checkScopeBinding(c, states, table)
+	checkHashSeed(c)
 }
 
 // checkScopeBinding: each Process<Scope> runs the subroutine of its own scope under its own scope constant; the action
@@ -809,4 +810,77 @@ func checkProcessReport(c *core.Ctx) {
 			}
 		}
 	}
+}
+
+// checkHashSeed (sm.hashseed): ctx.RequestHash is the key under which the request looks itself up in the cross-request
+// cache. A restarted request runs vcl_hash again and must start it from the default key of the request as it is *now*
+// (the URL may have been rewritten, and vcl_hash appends to the value): the key object is replaced on every pass -
+// in ProcessHash on every path before the subroutine runs, or by restart(). A key that survives from the first pass
+// makes the second pass look up another object than the one a fresh request for the same URL would find.
+func checkHashSeed(c *core.Ctx) {
+	prog := c.Prog
+	ph := prog.SSAFunc("interpreter", "Interpreter.ProcessHash")
+	restart := prog.SSAFunc("interpreter", "Interpreter.restart")
+	ps := prog.SSAFunc("interpreter", "Interpreter.ProcessSubroutine")
+	if ph == nil || ps == nil {
+		c.MissingAnchor("sm.hashseed", "Interpreter.ProcessHash / ProcessSubroutine")
+		return
+	}
+	fresh := func(fn *ssa.Function) *ssa.Store {
+		if fn == nil {
+			return nil
+		}
+		cd := core.NewCtrlDeps(fn)
+		for _, b := range fn.Blocks {
+			for _, in := range b.Instrs {
+				st, ok := in.(*ssa.Store)
+				if !ok {
+					continue
+				}
+				f := core.FieldOf(st.Addr)
+				if f != nil && f.Name() == "Value" {
+					// the other spelling: the value of the existing key object is overwritten
+					if fa, isFA := st.Addr.(*ssa.FieldAddr); isFA {
+						if ld, isLd := fa.X.(*ssa.UnOp); isLd {
+							if g := core.FieldOf(ld.X); g != nil && g.Name() == "RequestHash" && (b == fn.Blocks[0] || cd.PostDominates(b, fn.Blocks[0])) {
+								return st
+							}
+						}
+					}
+				}
+				if f == nil || f.Name() != "RequestHash" || !strings.HasSuffix(core.FieldOwner(st.Addr), "/interpreter/context.Context") {
+					continue
+				}
+				// a new object, on every path
+				isNew := false
+				for x := range core.BackSliceLocal(st.Val) {
+					if al, isAl := x.(*ssa.Alloc); isAl && al.Heap {
+						isNew = true
+					}
+				}
+				if isNew && (b == fn.Blocks[0] || cd.PostDominates(b, fn.Blocks[0])) {
+					return st
+				}
+			}
+		}
+		return nil
+	}
+	if st := fresh(restart); st != nil {
+		c.Discharge("sm.hashseed", "RequestHash", st.Pos(), "restart() replaces the key object")
+		return
+	}
+	st := fresh(ph)
+	if st == nil {
+		c.Report("sm.hashseed", "RequestHash", ph.Pos(), "neither restart() nor ProcessHash replaces ctx.RequestHash on every path: on a restarted request vcl_hash starts from the key of the previous pass, so the lookup finds another object than a fresh request for the same URL (a hit that should be a miss, or the reverse)")
+		return
+	}
+	for _, b := range ph.Blocks {
+		for _, in := range b.Instrs {
+			if core.StaticCallee(in) == ps && !core.InstrDominates(st, in) {
+				c.Report("sm.hashseed", "RequestHash", in.Pos(), "vcl_hash runs before ProcessHash has replaced ctx.RequestHash")
+				return
+			}
+		}
+	}
+	c.Discharge("sm.hashseed", "RequestHash", st.Pos(), "ProcessHash replaces the key object on every path before vcl_hash runs")
 }
